@@ -255,7 +255,7 @@ def real_catalog(root) -> List[dict]:
         elif isinstance(obj, EvolvableMultiInput):
             rebuild = [k["a"] for k in kids if k["a"] == "feature_net"]
         cat.append({"name": real_cls(obj, path), "L": own["L"], "N": own["N"], "fb": fallbacks_of(obj), "kids": kids,
-                    "rebuild": rebuild, "container": isinstance(obj, ModuleDict)})
+                    "rebuild": rebuild, "container": isinstance(obj, ModuleDict), "wrapper": isinstance(obj, EvolvableWrapper)})
     return cat
 
 
@@ -392,7 +392,7 @@ class World:
         n["last"] = split(obj.last_mutation_attr)
         lm = obj.last_mutation
         if obj.last_mutation_attr is None:
-            n["lastfn"] = lm is None
+            n["lastfn"] = True       # nothing is promised about last_mutation when no method is named
         else:
             try:
                 n["lastfn"] = lm is not None and _unwrap(lm)[1] is _unwrap(getattr(obj, obj.last_mutation_attr))[1]
@@ -605,8 +605,8 @@ def real_makers():
               "mlp_config": {"hidden_size": [8], "output_activation": "ReLU"}}
     return {
         "QNetwork": lambda: QNetwork(vec, dis),
-        "QNetwork1": lambda: QNetwork(vec, dis, encoder_config={"hidden_size": [8], "max_hidden_layers": 1, "min_mlp_nodes": 4},
-                                      head_config={"hidden_size": [8], "max_hidden_layers": 1, "min_mlp_nodes": 4}),
+        "QNetwork1": lambda: QNetwork(vec, dis, encoder_config={"hidden_size": [8, 8], "max_hidden_layers": 2, "min_mlp_nodes": 4},
+                                      head_config={"hidden_size": [8, 8], "max_hidden_layers": 2, "min_mlp_nodes": 4}),
         "ValueNetwork": lambda: ValueNetwork(vec),
         "DeterministicActor": lambda: DeterministicActor(vec, box),
         "StochasticActor": lambda: StochasticActor(vec, box),
@@ -762,3 +762,265 @@ def judge(traces: List[dict], chunk: int = 150, workers: int = 6, timeout: int =
             if k not in acc:
                 out[i] = [x if x is not None else None for x in out[i]]
     return out, stats
+
+
+# ------------------------------------------------------------------------------------------------ TLC relation -> real runs
+def canon_state(obs: List[dict]) -> List[dict]:
+    """public projection of an observation / a dumped state, canonically ordered"""
+    out = []
+    for tr in obs:
+        nodes = sorted(({"p": list(n["p"]), "cls": n["cls"], "L": sorted(map(list, n["L"])), "N": sorted(map(list, n["N"])),
+                         "last": list(n["last"])} for n in tr["nodes"]), key=lambda n: n["p"])
+        out.append({"live": bool(tr["live"]), "nodes": nodes})
+    return out
+
+
+def load_relation(cfg: str):
+    """(Relation over canonical states, catalogue, substring oracle, TLC result) of a MutReg dump configuration"""
+    from .. import tlc
+    from ..relation import Relation
+
+    r = tlc.dump("MutReg_MC", cfg)
+    seen, edges = set(), []
+    for e in r.tagged["TR"]:
+        e = {"from": canon_state(e["from"]), "act": e["act"], "out": e["out"], "to": canon_state(e["to"])}
+        k = json.dumps(e, sort_keys=True)
+        if k not in seen:
+            seen.add(k)
+            edges.append(e)
+    inits = [canon_state(i["obs"]) for i in r.tagged["INIT"]]
+    c = r.tagged["CATALOG"][0]
+    return Relation(edges, inits), c["cat"], [list(x) for x in c["sub"]], r
+
+
+def act_of_edge(a: dict, k: int) -> dict:
+    a = dict(a)
+    if a["op"] == "sample":
+        a = {"op": "sample", "t": a["t"], "p": a["p"], "pl": a["pl"], "j": k}
+    if a["op"] == "disable":
+        a["ks"] = sorted(a["ks"])
+    if a["op"] == "calldis":
+        a.pop("raises", None)
+    return a
+
+
+def replay_custom(rel, cat, sub, paths, seed: int):
+    """every path on a fresh real custom tree; a path is abandoned at the first step whose real outcome leaves TLC's path
+    (that step is judged and reported by TLC; what follows would not be the dumped path any more)"""
+    traces, stats = [], {"edges_run": set(), "diverged": 0}
+    for pi, path in enumerate(paths):
+        first = rel.edges[path[0]]
+        rootcls = [n for n in first["from"][0]["nodes"] if n["p"] == []][0]["cls"]
+        r = Runner("custom", lambda: custom_factory(rootcls), cat, sub, seed + pi, lambda c, node: custom_factory(c),
+                   desc=f"path:{pi}", rootname=rootcls)
+        if canon_state(r.ev[0]["post"]) != first["from"] and len(r.ev) == 1:
+            pass    # judged by TLC (construct clause)
+        for k, n in enumerate(path):
+            e = rel.edges[n]
+            a = act_of_edge(e["act"], pi + k)
+            if a["op"] == "calldis" and e["act"].get("raises"):
+                # the two outcomes of one call: executed once (the edge with raises = FALSE stands for both)
+                pass
+            ev = r.step(a)
+            stats["edges_run"].add(n)
+            got = canon_state(ev["post"])
+            ev["tlc_to"] = got == e["to"] or (a["op"] == "calldis" and got == e["from"])
+            if not ev["tlc_to"]:
+                stats["diverged"] += 1
+                break
+        traces.append(r.trace())
+    stats["edges_run"] = len(stats["edges_run"])
+    return traces, stats
+
+
+NET_MAKERS = ["QNetwork", "ValueNetwork", "DeterministicActor", "StochasticActor", "ContinuousQNetwork", "RainbowQNetwork", "QNetwork1"]
+REAL_STRS = ["latent", "node", "layer"]
+
+
+def real_setup(name: str):
+    mk = real_makers()[name]
+    root = mk()
+    cat = real_catalog(root)
+    plain_head = "head_net" in root._modules and not isinstance(root._modules["head_net"], EvolvableWrapper) \
+        and type(root._modules["head_net"]).__name__ == "EvolvableMLP"
+    assign = [{"a": "head_net", "c": real_cls(root._modules["head_net"], ("head_net",))}] if plain_head else []
+    return mk, cat, substrings(cat, REAL_STRS), assign
+
+
+def real_assign_factory(cname: str, node):
+    from agilerl.modules.mlp import EvolvableMLP
+    return EvolvableMLP(**node.head_net.init_dict)
+
+
+def replay_net(rel, paths, seed: int, every_maker: bool):
+    """the action sequences of the dumped `net' relation on real networks of that shape (encoder MLP + head MLP / wrapped MLP)"""
+    setups = {n: real_setup(n) for n in NET_MAKERS}
+    traces = []
+    for pi, path in enumerate(paths):
+        acts, seen = [], set()
+        for k, n in enumerate(path):
+            a = act_of_edge(rel.edges[n]["act"], pi + k)
+            if a["op"] == "call":
+                a["h"] = 0
+            acts.append(a)
+        names = NET_MAKERS if every_maker else [NET_MAKERS[pi % len(NET_MAKERS)]]
+        for name in names:
+            mk, cat, sub, assign = setups[name]
+            r = Runner("real", mk, cat, sub, seed + pi, real_assign_factory, desc=f"netpath:{pi}:{name}", rootname=name)
+            for a in acts:
+                a = dict(a)
+                if a["op"] == "assign":
+                    if not assign:
+                        break
+                    a["c"] = assign[0]["c"]
+                if r.dead:
+                    break
+                last = r.ev[-1]
+                if last["exc"] and last["op"] not in ("calldis", "sample"):
+                    break
+                # only operations applicable in the OBSERVED state (the real object may have left TLC's path)
+                node = [n for n in last["post"][a["t"] - 1]["nodes"] if n["p"] == a.get("p", [])] if a["op"] != "clone" else [1]
+                if not node:
+                    break
+                if a["op"] == "call" and a["m"] not in node[0]["L"] + node[0]["N"]:
+                    break
+                if a["op"] == "calldis" and a["m"] in node[0]["L"] + node[0]["N"]:
+                    break
+                if a["op"] == "clone" and last["post"][1]["live"]:
+                    break
+                r.step(a)
+            traces.append(r.trace())
+    return traces
+
+
+# ------------------------------------------------------------------------------------------------ verdicts -> violations
+CLAUSE_TAGS = [
+    ("the class of every module", "class-unknown"),
+    ("the registry of every module can be read", "registry-unreadable"),
+    ("the public registry is the module's own list", "registry-not-raw-filtered"),
+    ("no name is registered twice", "duplicate-names"),
+    ("mutation_methods = layer_mutation_methods", "union"),
+    ("no name is offered both", "kinds-overlap"),
+    ("last_mutation is the method", "last-mutation-fn"),
+    ("a wrapped module offers nothing", "wrapped-still-offers"),
+    ("every registered name resolves to the module CURRENTLY", "stale-after-replace"),
+    ("every registered name resolves (getattr)", "unresolvable"),
+    ("every registered name resolves to the module its path names", "wrong-owner"),
+    ("every registered name is called through the module's own MutationContext", "unrouted"),
+    ("every name is registered under the kind", "wrong-kind"),
+    ("the tree has the modules", "shape"),
+    ("the registry of every module after the operation", "registry"),
+    ("last_mutation_attr of every module the call went through", "last-attr"),
+    ("exactly the module owning the applied method is recreated", "recreate"),
+    ("the mutation hook of every module", "hook"),
+    ("the other tree", "other-tree-affected"),
+    ("the operation returns without raising", "raises"),
+    ("the recorded operation is applicable", "HARNESS"),
+    ("a new module starts without a clone", "construct-with-clone"),
+    ("(ground truth) at most one method body", "truth-bodies"),
+    ("(ground truth) last_mutation_attr names the body", "truth-last-attr"),
+    ("(ground truth) the module whose body ran", "truth-recreate"),
+    ("calling a method the module does not offer either fails", "disabled-call-exception"),
+    ("a method that is not offered applies nothing", "disabled-call-applies"),
+    ("sampling changes nothing", "sample-changes-state"),
+    ("sample_mutation_method raises ValueError", "sample-empty-no-valueerror"),
+    ("the names sampled from are exactly", "sample-support"),
+    ("layer methods share new_layer_prob", "sample-law"),
+    ("the sampled name is registered", "sample-unregistered"),
+    ("new_layer_prob = 1 yields", "sample-kind"),
+    ("the original is not affected by clone", "clone-affects-original"),
+]
+
+
+def tag_of(clause: str) -> str:
+    for pre, tag in CLAUSE_TAGS:
+        if clause.startswith(pre):
+            return tag
+    return "clause:" + clause[:40]
+
+
+def _regs(obs_tree) -> Dict[tuple, set]:
+    return {tuple(n["p"]): {".".join(m) for m in n["L"] + n["N"]} for n in obs_tree["nodes"]}
+
+
+def diff_text(pre: List[dict], post: List[dict], ev: dict) -> Tuple[str, str]:
+    """(class, text) of how the public registries changed over the event (presentation only)"""
+    if ev["op"] == "clone":
+        a, b = _regs(post[0]), _regs(post[1])
+    else:
+        t = ev.get("t", 1) - 1
+        a, b = _regs(pre[t]), _regs(post[t])
+    lost, gained = [], []
+    for p in sorted(set(a) | set(b)):
+        for m in sorted(a.get(p, set()) - b.get(p, set())):
+            lost.append(".".join(p) + ":" + m)
+        for m in sorted(b.get(p, set()) - a.get(p, set())):
+            gained.append(".".join(p) + ":" + m)
+    cls = "lost+gained" if lost and gained else "lost" if lost else "gained" if gained else "same"
+    return cls, f"names lost {lost[:8]}, gained {gained[:8]}"
+
+
+def op_detail(tr: dict, k: int) -> str:
+    ev = tr["ev"][k]
+    pre = tr["ev"][k - 1]["post"] if k > 0 else None
+    by = {c["name"]: c for c in tr["cfg"]["cat"]}
+    op = ev["op"]
+    where = "root" if not ev.get("p") else "nested"
+    if op in ("call", "calldis"):
+        nodes = {tuple(n["p"]): n for n in pre[ev["t"] - 1]["nodes"]}
+        q = tuple(ev["p"]) + tuple(ev["m"][:-1])
+        c = by.get(nodes[q]["cls"]) if q in nodes else None
+        kind = "own" if len(ev["m"]) == 1 else "forwarded"
+        return f"{kind}@{where}" + ("+rebuild" if c and c["rebuild"] else "") + (f"+fallback{ev.get('h')}" if ev.get("h") else "")
+    if op == "assign":
+        had = any(tuple(n["p"]) == tuple(ev["p"]) + (ev["a"],) for n in pre[ev["t"] - 1]["nodes"])
+        return "replace" if had else "attach"
+    if op == "disable":
+        nodes = pre[ev["t"] - 1]["nodes"]
+        wr = any(n["cls"].startswith(("Wrap", "EvolvableDistribution")) and tuple(n["p"])[:len(ev["p"])] == tuple(ev["p"]) for n in nodes)
+        return "".join(ev["ks"]) + "@" + where + ("+wrapper" if wr else "")
+    if op == "filter":
+        return ev["s"] + "@" + where
+    if op == "sample":
+        return f"p{ev['pl']}/2@{where}"
+    if op == "clone":
+        return "clone"
+    return op
+
+
+def signatures(tr: dict, k: int, clauses: List[str]) -> List[Tuple[str, str]]:
+    """(signature, failing clause) per failed clause of event k"""
+    ev = tr["ev"][k]
+    cfg = tr["cfg"]
+    det = op_detail(tr, k)
+    out = []
+    pre = tr["ev"][k - 1]["post"] if k > 0 else [{"live": False, "nodes": []}] * 2
+    dcls, _ = diff_text(pre, ev["post"], ev)
+    for c in clauses:
+        tag = tag_of(c)
+        if tag == "raises":
+            tag = f"raises[{ev['exct']}]"
+        if tag == "registry":
+            tag = "registry:" + ("reenabled-after-replace" if (ev["op"] == "call" and dcls == "gained") else
+                                 ("clone-differs" if _regs(ev["post"][0]).get(()) != _regs(ev["post"][1]).get(()) else "clone-differs-in-nested-modules-only")
+                                 if ev["op"] == "clone" else "names-" + dcls)
+        out.append((f"mutreg:{cfg['family']}:{cfg['root']}:{ev['op']}:{det}:{tag}", c))
+    return out
+
+
+def describe(tr: dict, k: int, clause: str) -> str:
+    ev = tr["ev"][k]
+    pre = tr["ev"][k - 1]["post"] if k > 0 else [{"live": False, "nodes": []}] * 2
+    _, dt = diff_text(pre, ev["post"], ev)
+    hist = [{x: a[x] for x in a if x not in ("j",)} for a in tr.get("actions", [])[:max(0, k - 1)]]
+    arg = {x: ev[x] for x in ("t", "p", "m", "h", "a", "c", "s", "ks", "pl") if x in ev}
+    bad = []
+    for t, o in enumerate(ev["post"], start=1):
+        for n in o["nodes"]:
+            for e in n["res"]:
+                if e["st"] != "cur" or not e["routed"]:
+                    bad.append(f"tree{t}:{'.'.join(n['p']) or '<root>'}.{'.'.join(e['n'])}->{e['st']}{'' if e['routed'] else '/unrouted'}")
+    return (f"{tr['cfg']['family']} tree {tr['cfg']['root']}: after history {json.dumps(hist)} the operation {ev['op']} {json.dumps(arg)} "
+            f"violates: {clause}. Observed: exc={ev['exc']!r}; {dt}; recreate_network calls {ev['rc']} (+{ev['lost']} on replaced objects); "
+            f"last_mutation_attr {[('.'.join(n['p']) or '<root>', '.'.join(n['last']) or None) for n in ev['post'][ev.get('t', 1) - 1]['nodes']]}; "
+            f"bindings not current/routed: {bad[:6]}")
